@@ -140,7 +140,7 @@ var (
 	protoAlpha = []string{"netrpc", "\x00", "", "grpc", "GRPC", "bogus"}
 	certAlpha  = []string{"\x00", "", "0123456789", strings.Repeat("!", 60), strings.Repeat("QUJD", 15), "REAL"}
 	muxAlpha   = []string{"\x00", "", "true", "false", "1", "yes"}
-	shapeAlpha = []string{"LF", "CRLF", "blanks", "extra8", "trunc3", "trunc2", "trunc1", "trunc0", "nonl-eof", "nonl-silence", "emptyfirst", "long70k", "exit-before", "silence"}
+	shapeAlpha = []string{"LF", "CRLF", "blanks", "extra8", "trunc3", "trunc2", "trunc1", "trunc0", "nonl-eof", "nonl-silence", "emptyfirst", "long70k", "exit-before", "silence", "closed-alive", "nonl-closed-alive"}
 )
 
 func (l lineSpec) key() string {
@@ -209,6 +209,10 @@ func (l lineSpec) render() (out []byte, after string) {
 		return []byte("\n" + line + "\n"), after
 	case "long70k":
 		return []byte(line + "|" + strings.Repeat("z", 70*1024) + "\n"), after
+	case "closed-alive": // stdout closed without a byte, the process lives on (a plugin that daemonises)
+		return nil, "close-stay"
+	case "nonl-closed-alive":
+		return []byte(line), "close-stay"
 	case "exit-before":
 		return nil, "exit"
 	case "silence":
@@ -228,7 +232,7 @@ func (l lineSpec) firstLine() (string, bool, bool) {
 		ln = strings.TrimSuffix(ln, "\r")
 		return ln, true, len(ln) > 64*1024
 	}
-	if after == "exit" {
+	if after == "exit" || after == "close-stay" {
 		// EOF: a non-empty unterminated tail is delivered as a line; an empty one is not
 		if s != "" {
 			return s, true, false
@@ -312,6 +316,9 @@ func init() {
 				}
 				if after == "exit" {
 					return
+				}
+				if after == "close-stay" {
+					r.stdout.Close()
 				}
 				r.waitKilled()
 			})
